@@ -457,6 +457,8 @@ Clauses(cur, e) ==
                                       e.out = "value" => (e.anom = <<>> /\ Names(e.post) = Names(cur.model))>> >>
     [] e.a = "ParseJson"      -> << <<"C05.parsejson.total", InFrag("json", cur.m0) => e.out = "value">> >>
     [] e.a = "Other"          -> << <<"T.other", TRUE>> >>
+    \* cross-format chain: the model a reader built becomes the source of a new write/read history
+    [] e.a = "Rebase"         -> << <<"T.rebase.same", e.anom = <<>> /\ e.post = cur.model>> >>
     [] e.a = "WriteOther"     -> << <<"T.other", TRUE>> >>
     [] OTHER                  -> << <<"T.unknown-action", FALSE>> >>
 
@@ -467,6 +469,8 @@ Advance(cur, e) ==
                                    !.memo = Append(@, [op |-> e.args.op, f |-> e.args.f, model |-> cur.model,
                                                        out |-> e.out, ret |-> e.ret])]
     [] e.a = "Other" -> [cur EXCEPT !.other = e.args.model]
+    [] e.a = "Rebase" -> [cur EXCEPT !.gen = 0, !.wd = <<>>, !.fmt = "",
+                                     !.pj = [out |-> "none", anom |-> <<>>, post |-> EmptyModel]]
     [] e.a = "ReadCorpus" -> IF e.out = "value" /\ e.args.full THEN [cur EXCEPT !.model = e.post] ELSE cur
     [] e.a = "ParseJson" -> [cur EXCEPT !.pj = [out |-> e.out, anom |-> e.anom, post |-> e.post]]
     [] e.a = "Write" -> [cur EXCEPT !.model = e.post,
